@@ -104,16 +104,23 @@ func applyEdit(t pipe.Tree, op string) pipe.Tree {
 
 type Case struct {
 	Root        bool     `json:"package_in_module_root"`
+	RootFirst   bool     `json:"root_package_listed_first,omitempty"`
 	Ops         []string `json:"history"`
 	SameProcess bool     `json:"whole_history_in_one_process_and_directory,omitempty"`
 }
+
+var rootFirst bool // layout variant of the current exploration: "." listed before the other entrypoints
 
 func specFor(dir, op string, root bool) pipe.Spec {
 	s := pipe.Spec{Dir: dir, All: true, Entrypoints: []string{"./a", "./c"},
 		Globals: map[string][]string{"gengo:g1": {"true"}},
 		Gens:    []pipe.GenScript{{Name: "g1", Default: pipe.Action{Render: "var V_$T_$G = 1\n"}}}}
 	if root {
-		s.Entrypoints = append(s.Entrypoints, ".")
+		if rootFirst {
+			s.Entrypoints = append([]string{"."}, s.Entrypoints...)
+		} else {
+			s.Entrypoints = append(s.Entrypoints, ".")
+		}
 	}
 	switch op {
 	case "run:force":
@@ -382,7 +389,7 @@ func converge(c *core.Ctx, cs Case, t pipe.Tree) {
 	cur := t
 	base := cs
 	for i := 0; i < 4; i++ {
-		cs = Case{Root: base.Root, Ops: append(append([]string{}, base.Ops...), repeat("run:all", i)...)}
+		cs = Case{Root: base.Root, RootFirst: base.RootFirst, Ops: append(append([]string{}, base.Ops...), repeat("run:all", i)...)}
 		next, inv, ok := step(c, cs, cur, "run:all")
 		if !ok {
 			return
@@ -425,7 +432,7 @@ func (e *explorer) visit(t pipe.Tree, hist []string, remaining int) {
 		first = true
 	}
 	e.seen[h] = remaining
-	cs := Case{Root: e.root, Ops: append([]string{}, hist...)}
+	cs := Case{Root: e.root, RootFirst: rootFirst, Ops: append([]string{}, hist...)}
 	if first {
 		e.c.State(fmt.Sprint(e.root) + h)
 		e.c.Eval(1)
@@ -463,11 +470,9 @@ func run(c *core.Ctx) {
 	depth := c.Pick(3, 4)
 	c.Bound("operations", ops)
 	c.Bound("max_history_length", depth)
-	c.Bound("layouts", []string{"packages a (imports b), b, c in sub-directories", "the same plus a package in the module root"})
-	for _, root := range []bool{false, true} {
-		if root && !c.Thorough() {
-			// quick: root layout only to depth 2
-		}
+	c.Bound("layouts", []string{"packages a (imports b), b, c in sub-directories", "the same plus a package in the module root, listed last", "the same, root package listed first"})
+	for li, root := range []bool{false, true, true} {
+		rootFirst = li == 2
 		d := depth
 		if root {
 			d = c.Pick(2, 3)
@@ -480,7 +485,7 @@ func run(c *core.Ctx) {
 				}
 				e := &explorer{c: c, root: root, depth: d, seen: map[string]int{}, convSet: map[string]bool{}, convMax: c.Pick(2, 3)}
 				t0 := module(root)
-				cs := Case{Root: root}
+				cs := Case{Root: root, RootFirst: rootFirst}
 				// replay the 2-op prefix
 				t := t0
 				ok := true
@@ -508,7 +513,7 @@ func run(c *core.Ctx) {
 				if op2 == ops[0] {
 					t1 := t0
 					if isRun(op1) {
-						t1, _, _ = step(c, Case{Root: root}, t0, op1)
+						t1, _, _ = step(c, Case{Root: root, RootFirst: rootFirst}, t0, op1)
 					} else {
 						t1 = applyEdit(t0, op1)
 					}
@@ -653,6 +658,7 @@ func replay(c *core.Ctx, raw json.RawMessage) {
 		c.Internal("bad case: %v", err)
 		return
 	}
+	rootFirst = cs.RootFirst
 	if cs.SameProcess {
 		// the recorded history is a prefix; the failing step is one of the runs that follow it
 		for _, op := range histOps {
